@@ -176,7 +176,7 @@ def run(job: dict, state: dict, child) -> dict:  # noqa: ANN001
         short = str(name).replace("/", ".").split(".")[-1]
         by_short.setdefault(short, []).append(k)
     homonym_groups = [v for v in by_short.values() if len(v) >= 2]
-    strategies = ["shuffle", "aba", "doc_undoc", "homonyms", "repeat", "window_shuffle", "reverse"]
+    strategies = ["shuffle", "aba", "doc_undoc", "homonyms", "repeat", "window_shuffle", "reverse", "two_parsers"]
     strat_count: dict[str, int] = {}
     for h in range(n_hist):
         strat = strategies[h % len(strategies)] if keys else "none"
@@ -211,16 +211,25 @@ def run(job: dict, state: dict, child) -> dict:  # noqa: ANN001
                 w = seq[i : i + 3]
                 rnd.shuffle(w)
                 seq[i : i + 3] = w
+        elif strat == "two_parsers":
+            # the queries alternate between TWO parser instances: state shared between instances (a cache at class or
+            # module level) would let one instance answer from what the other one saw
+            while len(seq) < hist_len:
+                a = rnd.choice(documented) if documented else rnd.choice(keys)
+                b = rnd.choice(keys)
+                seq += [a, b, b, a]
         elif strat == "reverse":
             order = [rec["key"] for rec in recorded if rec["key"] in refs]
             start = rnd.randrange(0, max(1, len(order) - hist_len)) if len(order) > hist_len else 0
             seq = order[start : start + hist_len][::-1]
         strat_count[strat] = strat_count.get(strat, 0) + 1
         parser = new_parser()
+        parsers = [parser, new_parser()] if strat == "two_parsers" else [parser]
         window: list[str] = []
         for pos, k in enumerate(seq[:hist_len]):
             q = queries[k]
             ops += 1
+            parser = parsers[pos % len(parsers)]
             try:
                 got = getattr(parser, q["method"])(*q["args"], **q["kwargs"])
             except BaseException as e:  # noqa: BLE001
